@@ -17,7 +17,6 @@ func init() {
 	vRegister("vC13_suffix2", vC13_suffix2)
 	vRegister("vC13_suffix3", vC13_suffix3)
 	vRegister("vC13_nobuffer", vC13_nobuffer)
-	vRegister("vC13_dbg", vC13_dbg)
 }
 
 type vC13Msg struct{ tag int }
@@ -240,24 +239,4 @@ func vC13_nobuffer() {
 	vAssert(cur.err != nil && errors.Is(cur.err, gerrors.ErrStashBufferNotSet), "without a stash buffer the operation reports ErrStashBufferNotSet")
 	vAssert(pid.mailbox.IsEmpty() && pid.systemMailbox.IsEmpty(), "nothing is delivered")
 	vCover("end")
-}
-
-func vC13_dbg() {
-	pid := vC13_newPID()
-	ctx := getContext()
-	vAssert(ctx != nil, "dbg-ctx")
-	ctx.self = pid
-	ctx.message = &vC13Msg{tag: 1}
-	pid.doReceive(ctx)
-	vAssert(!pid.mailbox.IsEmpty(), "dbg-nonempty")
-	cur := pid.mailbox.Dequeue()
-	vAssert(cur != nil, "dbg-cur")
-	vAssert(cur == ctx, "dbg-cur2")
-	c2 := getContext()
-	vAssert(c2 != nil, "dbg-c2")
-	c3 := getContext()
-	vAssert(c3 != nil, "dbg-c3")
-	c4 := getContext()
-	vAssert(c4 != nil, "dbg-c4")
-	vAssert(c4 != c3, "dbg-c43")
 }
